@@ -381,6 +381,34 @@ self.compute_final_grid()
 ''', 'V_obj.add_temperature(V_T, np.array(V_sig))', 'V_obj.wn = np.array(V_wn)'],
              under=['True'])
     site = H + '::HitranCIA.compute_final_grid'
+    with R.guard('6.hitran.sorted', 'PERM', site, 'sorted grid'):
+        # positive check on the flow, whatever the statements look like: the unified wavenumber grid that ends up in
+        # the object is the concatenated ranges put through a sort (np.interp needs an ascending grid; ranges of
+        # different temperature blocks may overlap, so concatenating them in any order is not enough), and the table
+        # is indexed by the same permutation
+        f = ix.func(site)
+        fl = mkflow(ix, site, forward_attrs=True)
+        wn = [e for e in fl.of('store') if fmt(fl, e.target) == 'self._wavenumber_grid' and not e.guards and not e.loops]
+        xs = [e for e in fl.of('store') if fmt(fl, e.target) == 'self._xsec_grid']
+        why = []
+        if not wn:
+            why.append('self._wavenumber_grid is not stored unconditionally')
+        else:
+            last = wn[-1].value
+            srt = [a for a in last.all_atoms() if fl.tab.atoms[a].head in ('call', 'mcall') and fl.tab.atoms[a].extra and
+                   fl.tab.atoms[a].extra[0] in ('fn:argsort', 'fn:sort', 'fn:unique', 'fn:lexsort')]
+            if not srt:
+                why.append('the unified wavenumber grid is %s: concatenated ranges that are never sorted' % fmt(fl, last)[:120])
+            else:
+                perm = [a for a in srt if fl.tab.atoms[a].extra[0] == 'fn:argsort']
+                if perm and xs and not any(
+                        perm[0] in v.all_atoms() for v in [x.value for x in xs] + [e.value for e in fl.of('assign') + fl.of('call')
+                                                                               if isinstance(getattr(e, 'value', None), RF)] +
+                        [a_ for e in fl.of('call') for a_ in e.args if isinstance(a_, RF)]):
+                    why.append('the cross-section rows are not re-ordered with the permutation that sorts the grid')
+        R.check('6.hitran.sorted', 'PERM', site,
+                'the unified wavenumber grid is sorted, and the cross-section rows are put in the same order',
+                not why, key='; '.join(why), detail='; '.join(why), loc=f.loc())
     with R.guard('6.hitran.final', 'PERM', site, 'final grid'):
         f = ix.func(site)
         need(R, '6.hitran.final', 'PERM', site,
